@@ -65,6 +65,41 @@ fn answer_subst(sol: &Solution<ChalkIr>, program: &Program) -> Option<Vec<FTy>> 
     Some(out)
 }
 
+/// Witness check for `exists<X..> { body }`: if the answer is `Unique` with a GROUND substitution, evaluate the body
+/// under exactly that assignment. Some(true): the goal is true (the witness holds); Some(false): the witness is refuted;
+/// None: not applicable / undecided. Independent of the bounded universe (the witness may be deeper than it).
+pub fn witness_holds(prog: &Prog, goal: &Goal, program: &Program, sol: &Sol, budget: u64) -> Option<bool> {
+    let (vars, body) = match goal {
+        Goal::Exists(v, b) if !b.has_exists() => (v, b),
+        _ => return None,
+    };
+    let s = match sol {
+        Some(s @ Solution::Unique(_)) => s,
+        _ => return None,
+    };
+    let sigma = answer_subst(s, program)?;
+    if sigma.iter().any(|t| t.has_var()) {
+        return None;
+    }
+    let (_, occ) = first_occurrence_order(goal)?;
+    if occ.len() != sigma.len() {
+        return None;
+    }
+    let mut m = BTreeMap::new();
+    for (v, t) in occ.iter().zip(sigma.iter()) {
+        m.insert(v.clone(), t.clone());
+    }
+    if vars.iter().any(|v| !m.contains_key(v)) {
+        return None;
+    }
+    let mut rf = crate::reference::Ref::new(prog, budget);
+    match rf.goal(body, &std::collections::BTreeSet::new(), &m, &mut 0) {
+        Ok(Tv::T) => Some(true),
+        Ok(Tv::F) => Some(false),
+        _ => None,
+    }
+}
+
 pub fn judge(prog: &Prog, goal: &Goal, program: &Program, g: &G, sol: &Sol, budget: u64) -> (Verdict, Facts) {
     let mut facts = Facts::default();
     if !goal.has_exists() {
